@@ -7,7 +7,7 @@ import (
 	"pgregory.net/rapid"
 )
 
-var c18OptNames = []string{"a", "b", "c", "A", "aa", "ab", "all", "force", "f", "x1", "b2", "B"}
+var c18OptNames = []string{"a", "b", "c", "A", "aa", "ab", "all", "force", "f", "x1", "b2", "B", "logFile", "dryRun", "logFile", "aB"}
 
 // names whose status the statement leaves open are not generated: the reserved word OPTIONS, names with non-ASCII
 // upper-case or caseless letters, a leading underscore
@@ -47,6 +47,7 @@ func TestC18(t *testing.T) {
 			}
 			c.Decls = append(c.Decls, d)
 		}
+		c.SpecFirst = chance(rt, 1, 4, "specfirst")
 		Report(rt, "C18", "decls", c, CheckC18(c, st))
 		w := modelDecls(c)
 		if w > 0 || (w < 0 && manyNames) {
